@@ -27,7 +27,8 @@ RULE = ("random histories: 1-2 models, agents held by the program or not, per-ag
         "remove an earlier or later agent / create 0-2 agents in any model / drop a reference / add an agent to or discard one from "
         "a program-made set, often the activated one / finally raise an exception), activations do / shuffle_do / map / "
         "GroupBy.do / GroupBy.map by method name (plain method, per-instance override, staticmethod, classmethod) and by callable, "
-        "arguments positional / keyword, over model.agents, agents_by_type[T] and program-made sets of truthy and falsy agents; "
+        "arguments positional / keyword (one activation in two with further keyword arguments of the program's own, one of them "
+        "named `agent`), over model.agents, agents_by_type[T] and program-made sets of truthy and falsy agents; "
         "plus, exhaustively, every single-action script family over n <= 3 agents x every held/unheld pattern (quick: do; "
         "thorough: do, shuffle_do, map, GroupBy.do, and n = 4 for do), and every family over a program-made activated set of "
         "n <= 3 agents in which each agent does nothing / raises / removes itself (and raises) / discards agent j from the activated "
